@@ -5,6 +5,7 @@ import (
 	"fmt"
 	"go/ast"
 	"go/token"
+	"go/types"
 	"strings"
 )
 
@@ -127,6 +128,92 @@ func (in *inliner) site(file string, s ast.Stmt, depth int, sub subst, rets *ret
 			return "", false
 		}
 		return "{\n" + strings.Join(decl, "\n") + "\n" + body + "\nreturn " + strings.Join(names, ", ") + "\n}", true
+	case *ast.ForStmt:
+		// receive loops in the form of a range over the channel:
+		//   for e, ok := <-ch; ok; e, ok = <-ch { body }          ==>  for e := range ch { body }
+		//   for { e, ok := <-ch; if !ok { break }; rest }         ==>  for e := range ch { rest }
+		// (ok not used in the body, e not assigned there, ch a plain operand)
+		recvOf := func(st ast.Stmt, tok token.Token) (e, ok *ast.Ident, ch ast.Expr) {
+			as, isAs := st.(*ast.AssignStmt)
+			if !isAs || as.Tok != tok || len(as.Lhs) != 2 || len(as.Rhs) != 1 {
+				return nil, nil, nil
+			}
+			u, isU := ast.Unparen(as.Rhs[0]).(*ast.UnaryExpr)
+			if !isU || u.Op != token.ARROW || !pureArg(in.info, u.X) {
+				return nil, nil, nil
+			}
+			e, _ = as.Lhs[0].(*ast.Ident)
+			ok, _ = as.Lhs[1].(*ast.Ident)
+			if e == nil || ok == nil || e.Name == "_" || ok.Name == "_" {
+				return nil, nil, nil
+			}
+			return e, ok, u.X
+		}
+		obj := func(id *ast.Ident) types.Object {
+			if o := in.info.Defs[id]; o != nil {
+				return o
+			}
+			return in.info.Uses[id]
+		}
+		var e, okv *ast.Ident
+		var ch ast.Expr
+		var rest []ast.Stmt
+		switch {
+		case st.Init != nil && st.Post != nil && st.Cond != nil:
+			e, okv, ch = recvOf(st.Init, token.DEFINE)
+			e2, ok2, ch2 := recvOf(st.Post, token.ASSIGN)
+			cond, isID := ast.Unparen(st.Cond).(*ast.Ident)
+			if e == nil || e2 == nil || !isID || obj(cond) != obj(okv) || obj(e2) != obj(e) || obj(ok2) != obj(okv) || in.text(ch) != in.text(ch2) {
+				return "", false
+			}
+			rest = st.Body.List
+		case st.Init == nil && st.Post == nil && st.Cond == nil && len(st.Body.List) >= 2:
+			e, okv, ch = recvOf(st.Body.List[0], token.DEFINE)
+			ifs, isIf := st.Body.List[1].(*ast.IfStmt)
+			if e == nil || !isIf || ifs.Init != nil || ifs.Else != nil || len(ifs.Body.List) != 1 {
+				return "", false
+			}
+			not, isNot := ast.Unparen(ifs.Cond).(*ast.UnaryExpr)
+			br, isBr := ifs.Body.List[0].(*ast.BranchStmt)
+			if !isNot || not.Op != token.NOT || !isBr || br.Tok != token.BREAK || br.Label != nil {
+				return "", false
+			}
+			if id, isID := ast.Unparen(not.X).(*ast.Ident); !isID || obj(id) != obj(okv) {
+				return "", false
+			}
+			rest = st.Body.List[2:]
+		default:
+			return "", false
+		}
+		clean := true
+		for _, b := range rest {
+			ast.Inspect(b, func(m ast.Node) bool {
+				switch t := m.(type) {
+				case *ast.Ident:
+					if in.info.Uses[t] == obj(okv) {
+						clean = false
+					}
+				case *ast.AssignStmt:
+					for _, l := range t.Lhs {
+						if id, isID := l.(*ast.Ident); isID && in.info.Uses[id] == obj(e) {
+							clean = false
+						}
+					}
+				}
+				return clean
+			})
+		}
+		if !clean {
+			return "", false
+		}
+		var b strings.Builder
+		b.WriteString("for " + e.Name + " := range " + in.expand(file, ch, depth, sub) + " {\n")
+		for _, bs := range rest {
+			b.WriteString(in.expandR(file, bs, depth, sub, rets) + "\n")
+		}
+		b.WriteString("}")
+		in.count++
+		return b.String(), true
 	case *ast.LabeledStmt:
 		// L: if cond { body; goto L }  ==>  for cond { body }   (the only goto to L, no other branch statement in
 		// the body that the new loop could capture)
@@ -179,7 +266,7 @@ func (in *inliner) site(file string, s ast.Stmt, depth int, sub subst, rets *ret
 		return "{\nvar " + tmp + " " + in.typeText(in.fileOf(c.body), c.typ.Results.List[0].Type) + "\n" + body + "\n" + lhsText(st.Chan) + " <- " + tmp + "\n}", true
 	case *ast.GoStmt:
 		c := in.resolve(st.Call)
-		if c == nil {
+		if c == nil || c.isIIFE { // `go func() {...}()` already is a literal: its body is visited in place
 			return "", false
 		}
 		// go h(args)  ==>  go func(params) results { body }(args): the function value is replaced by a literal
